@@ -7,6 +7,17 @@ use crate::wire::run_scn;
 
 pub fn run(ctx: &vcore::Ctx) -> ! {
     let path = ctx.rest.first().expect("probe <scn.json>");
+    if path == "directed" {
+        for (name, scn) in crate::checks::c06::directed() {
+            let o = run_scn(&scn, 60000);
+            let v = judge(&scn, &o);
+            match v.complaints.first() {
+                Some(c) => println!("{name}: {}", crate::oracle::signature("C06", c, &scn)),
+                None => println!("{name}: ok (complete={} rounds={})", v.complete, o.rounds),
+            }
+        }
+        std::process::exit(0)
+    }
     let txt = std::fs::read_to_string(path).expect("read scn");
     let v: serde_json::Value = serde_json::from_str(&txt).expect("json");
     let v = v.get("witness").cloned().unwrap_or(v);
